@@ -172,6 +172,8 @@ func runPath(name string, sc *scenario, s *blockSpec, raw, corrupt []byte) (pr p
 	return
 }
 
+var entryPathJudged, entryPathSkipped int
+
 var entryPathNames = []string{"hdr-assign", "hdr-update", "retry-assign", "retry-update"}
 
 func sameCode(a, b string) bool {
@@ -213,9 +215,11 @@ func entryPaths(kind string, sc *scenario, s *blockSpec, raw []byte, now int64, 
 		}
 		if pr.skipped != "" {
 			r.Hit("entry-path-skipped/" + pr.skipped)
+			entryPathSkipped++
 			continue
 		}
 		r.Hit("entry-path-result/" + pr.code)
+		entryPathJudged++
 		if p0.newBlockErr {
 			// NewBlock(whole) refuses these bytes outright: no object-building order may accept them
 			if pr.accepted {
